@@ -14,26 +14,43 @@ FN == INSTANCE FreqNorm WITH TOT <- 4096, MaxSyms <- 256, MaxCount <- 0, Variant
 PC == INSTANCE PrefixCode WITH HMaxSyms <- 256, HMaxCount <- 0, Strategy <- "any",
                                hf <- <<>>, forest <- {}, code <- <<>>, hpc <- "done"
 
-KnownIds == {}
+(* C01-KF1 .. KF5 are recorded as FIXED in known_findings.json (their repairs are in /repo): their    *)
+(* deviation actions stay below as documentation but are not consulted - a fixed finding that shows   *)
+(* again is a violation.                                                                              *)
+KnownIds == {"C01-KF6"}
 
 Wrong(e) == e.ok /\ (e.y.len # enc[e.b].x.len \/ e.y.h # enc[e.b].x.h)
+
+(* symbols of a logged table that own slots / that are present in its counts without a slot *)
+SlotSyms(e) == { e.sym[i] : i \in { j \in 1..Len(e.sym) : e.norm[j] > 0 } }
+StarvedSyms(e) == { e.sym[i] : i \in FN!Starved(e.freq, e.norm) }
+OneSlotSyms(e) == { e.sym[i] : i \in { j \in 1..Len(e.sym) : e.norm[j] = 1 } }
+(* byte values of the payload behind blob b, when the harness logged them *)
+PayloadSyms(mech, b) == IF b \in DOMAIN mech.px THEN mech.px[b] ELSE {}
+
+FseLike(subj) == subj.fam \in {"fse", "paradapt"}
 
 (* C01-KF1: the FSE normalisers (fse.rs EntropyNormalizer::normalize_frequencies_entropy_     *)
 (* preserving and FseTable::normalize_frequencies_simple) clamp every share to what remains of  *)
 (* the table without reserving a slot for the symbols still to come: a present symbol late in   *)
 (* the alphabet ends with 0 slots (MC_FreqNorm_clamp.cfg is the model).  The encoder then        *)
 (* writes an escape byte pair the decoder knows nothing about: decoding "succeeds" with other    *)
-(* bytes.  Two events carry the finding: (a) the starved table itself, (b) the wrong payload of  *)
-(* a decode under a table TLC has seen to be starved.                                            *)
-G1a(e, subj, mech) == /\ subj.fam = "fse" /\ e.op = "table" /\ e.kind = "fse"
+(* bytes.  Three events carry the finding: (a) the starved table of the coder, (a') a starved    *)
+(* result of the public normaliser, (b) the wrong payload of a decode whose payload CONTAINS a   *)
+(* symbol TLC has seen starved in the coder's table - any other wrong decode is not explained.   *)
+G1a(e, subj, mech) == /\ FseLike(subj) /\ e.op \in {"table", "norm"} /\ e.kind = "fse"
                       /\ Len(e.freq) = Len(e.norm)
                       /\ FN!Starved(e.freq, e.norm) # {}
-                      /\ FN!SlotsFit(e.norm, e.total) /\ FN!StartsCumulative(e.start, e.norm)
-G1b(e, subj, mech) == /\ subj.fam = "fse" /\ mech.starved
+                      /\ FN!SlotsFit(e.norm, e.total)
+                      /\ (e.op = "table" => FN!StartsCumulative(e.start, e.norm))
+G1b(e, subj, mech) == /\ FseLike(subj)
                       /\ e.op = "decode" /\ Matching(e.c, e.b, e.n) /\ Wrong(e)
+                      /\ PayloadSyms(mech, e.b) \cap mech.starved # {}
 KF1(e, subj, mech, mech2) ==
     /\ UNCHANGED csvars
-    /\ mech2 = IF e.op = "table" THEN [mech EXCEPT !.starved = TRUE, !.tables = @ + 1] ELSE mech
+    /\ mech2 = IF e.op = "table"
+               THEN [mech EXCEPT !.slots = SlotSyms(e), !.starved = StarvedSyms(e), !.oneslot = OneSlotSyms(e), !.tables = @ + 1]
+               ELSE IF e.op = "norm" THEN [mech EXCEPT !.tables = @ + 1] ELSE mech
 
 (* C01-KF2: FseConfig::realtime() cannot decode what it encodes once the payload reaches 100     *)
 (* bytes (shorter payloads are stored raw): the table is always built with 2^12 slots and the    *)
@@ -71,13 +88,34 @@ KF4(e, subj, mech, mech2) == UNCHANGED csvars /\ mech2 = mech
 (* C01-KF5: a NON-ADAPTIVE FSE encoder (FseConfig::realtime) keeps the table of its first compress *)
 (* call; a later payload containing a byte without a slot in that table is not refused: the        *)
 (* encoder writes 0xFF + literal into the rANS stream and returns Ok, the decoder returns other     *)
-(* bytes.  Trigger: preset with adaptive = false, model trained on data other than the payload.     *)
+(* bytes.  Trigger: preset with adaptive = false, model trained on data other than the payload, a   *)
+(* byte of the payload owns no slot in the table TLC saw after the training.                        *)
 (* (On the pinned tree C01-KF2 hides it: the realtime decoder refuses every blob >= 100 bytes.)     *)
 G5(e, subj, mech) == /\ subj.fam = "fse" /\ subj.variant = "realtime"
                      /\ e.op = "decode" /\ Matching(e.c, e.b, e.n) /\ Wrong(e)
-                     /\ ~mech.starved
+                     /\ PayloadSyms(mech, e.b) \cap mech.starved = {}
                      /\ enc[e.b].m.trained /\ OtherModel(e)
+                     /\ (PayloadSyms(mech, e.b) \ mech.slots) # {}        \* a payload byte without a slot in the kept table
 KF5(e, subj, mech, mech2) == UNCHANGED csvars /\ mech2 = mech
+
+(* C01-KF6: FseTable::mul_hi (the portable 64x64 -> high 64 multiplication used by encode_symbol)   *)
+(* adds b_lo*a_hi + b_hi*a_lo + carry in a u64.  For a symbol with exactly ONE slot (reciprocal !0) *)
+(* and a state >= 2^32 with a large low word the sum wraps: encode_symbol returns a state that      *)
+(* decode_symbol does not map back; a payload that meets such a state decodes to other bytes.       *)
+(* (a) the symbol-step law fails only for items with one slot and a state >= 2^32 (xh = state>>32); *)
+(* (b) a wrong decode of a payload that contains a symbol with exactly one slot in the coder's      *)
+(*     table (and no starved one).                                                                  *)
+BadSteps(items) == { i \in 1..Len(items) : items[i].ok /\ (items[i].ds # items[i].s \/ items[i].dx # items[i].x) }
+G6a(e, subj, mech) == /\ FseLike(subj) /\ e.op = "symsteps" /\ e.kind = "fse"
+                      /\ BadSteps(e.items) # {}
+                      /\ \A i \in BadSteps(e.items) : e.items[i].f = 1 /\ e.items[i].xh >= 1
+G6b(e, subj, mech) == /\ FseLike(subj)
+                      /\ e.op = "decode" /\ Matching(e.c, e.b, e.n) /\ Wrong(e)
+                      /\ e.y.len = enc[e.b].x.len
+                      /\ PayloadSyms(mech, e.b) \cap mech.oneslot # {}
+                      /\ PayloadSyms(mech, e.b) \cap mech.starved = {}
+                      /\ PayloadSyms(mech, e.b) \subseteq mech.slots
+KF6(e, subj, mech, mech2) == UNCHANGED csvars /\ mech2 = mech
 
 (* guard (state predicate) and action of each deviation; mech2 is the next value of the trace   *)
 (* specification's mech variable                                                                 *)
@@ -87,10 +125,12 @@ DevApplies(id, e, subj, mech) ==
     \/ id = "C01-KF3" /\ G3(e, subj, mech)
     \/ id = "C01-KF4" /\ G4(e, subj, mech)
     \/ id = "C01-KF5" /\ G5(e, subj, mech)
+    \/ id = "C01-KF6" /\ (G6a(e, subj, mech) \/ G6b(e, subj, mech))
 KnownDeviation(id, e, subj, mech, mech2) ==
     \/ id = "C01-KF1" /\ KF1(e, subj, mech, mech2)
     \/ id = "C01-KF2" /\ KF2(e, subj, mech, mech2)
     \/ id = "C01-KF3" /\ KF3(e, subj, mech, mech2)
     \/ id = "C01-KF4" /\ KF4(e, subj, mech, mech2)
     \/ id = "C01-KF5" /\ KF5(e, subj, mech, mech2)
+    \/ id = "C01-KF6" /\ KF6(e, subj, mech, mech2)
 =============================================================================
